@@ -52,7 +52,7 @@ class LenEval(SymEval):
                 return 'count(identifier)'
             if n == 'len' and payload['args']:
                 at = peel_refs(self.body.place_ty(op_place(payload['args'][0])))
-                if at is not None and ty_mentions(at, lambda x: is_adt(x, 'alloc::collections::vec_deque::VecDeque')):
+                if at is not None and ty_mentions(at, lambda x: x.get('k') == 'adt' and x['path'].endswith('VecDeque')):
                     return 'len(free)'
                 return 'length'      # a column / row list holds `length` values (W5)
         return None
@@ -195,6 +195,9 @@ def x1_wire_shape(prog):
             r.viol('X1', label + '/container-count', w.loc(), 'expected one container on each side (writer %d, reader %d)' % (len(wc), len(dc)))
             continue
         wc, dc = wc[0], dc[0]
+        for side, fn_, c in (('writer', w, wc), ('reader', d, dc)):
+            if not fn_.body.must_pass(0, [c[6]], fn_.body.return_blocks()):
+                r.viol('X1', label + '/container-skippable/' + side, fn_.loc(), 'a path through the %s returns without opening its container: the two sides disagree on the wire shape for some values (e.g. a fast path for empty data)' % side)
         r.inst('%s: writer %s(%s,%s) reader %s(%s,%s) visitor=%s' % (label, wc[1], wc[2], wc[3], dc[1], dc[2], dc[3], dc[4]))
         if wc[1] != dc[1] and not (wc[1] == 'seq' and dc[1] == 'seq'):
             r.viol('X1', label + '/container-kind', d.loc(), 'writer emits a %s but the reader expects a %s' % (wc[1], dc[1]))
